@@ -142,6 +142,20 @@ theorem C15_untagged_field_is_positional (env : TyEnv) (o : ResultOpts) (slot : 
     (he : m.exported = true) (hg : m.tags.group = "") (hn : m.tags.name = "") :
     newResultField env o slot (m, t) = newResult env o slot t := newResultField_plain env o slot m t he hg hn
 
+/-- a value-group *tag* on a field of a result object reads like the `dig.Group` *option* on a plain result of the
+    field's type: the same parsed result (same key, same flattening) and the same acceptance, whenever the group string
+    parses (the option wraps a parse error once more) -/
+theorem C15_group_tag_is_option (env : TyEnv) (slot : Nat) (m : FieldMeta) (t : GoT) (g : GroupSpec)
+    (hp : parseGroupString m.tags.group = .ok g) (hn : m.tags.name = "") (ho : boolTagLax m.tags.optional = false) :
+    newResultGrouped env slot m t = newResultGroupOpt env slot t { name := "", group := m.tags.group, as := [] } := by
+  unfold newResultGrouped newResultGroupOpt
+  simp only [hp, hn, ho, asTypes, List.isEmpty_nil, Bool.not_true, Bool.and_false, Bool.false_eq_true, if_false,
+    List.tail_nil, bne_self_eq_false]
+  cases hf : g.flatten <;> cases hs : g.soft <;> simp
+
+-- non-vacuity (a *test*, run by the evaluator at build time): `"g,flatten"` parses
+#guard (parseGroupString "g,flatten").toOption == some { name := "g", flatten := true, soft := false }
+
 /-- non-vacuity (a test): an untagged exported field is `plain` -/
 example : ({ name := "A", exported := true, anon := false, tags := {} } : FieldMeta).plain := ⟨rfl, rfl, rfl, rfl⟩
 
@@ -154,6 +168,7 @@ example : ({ name := "A", exported := true, anon := false, tags := {} } : FieldM
 #print axioms C15_result_object_info
 #print axioms C15_name_tag_is_option
 #print axioms C15_untagged_field_is_positional
+#print axioms C15_group_tag_is_option
 #print axioms C15_interleave_hard
 #print axioms C15_object_build
 #print axioms C15_list_build
